@@ -51,6 +51,8 @@ def classify(e):
             return 'unbalanced'
         if m.startswith('Empty namespace in component name'):
             return 'empty_ns'
+        if m.startswith('Unknown keyword'):
+            return 'unknown_kw'
         if m.startswith('Unknown component'):
             return 'unknown_cpt'
         if m.startswith('Syntax error: Too many args'):
